@@ -1,7 +1,7 @@
 (* C02 - received frames are reassembled into exactly the messages that were sent.  Statements fixed in Spec/RxSpec.v. *)
 From Coq Require Import ZArith List Bool Lia.
 From N2kV Require Import Base.ListAux Model.CanId Model.Sched Model.PgnClass Model.NodeDefs Model.NodeRxDefs Spec.SendSpec Spec.RxSpec
-  Proofs.SendProofs Proofs.RxProofsA Proofs.RxProofsB Proofs.RxProofsC Proofs.RxProofsD Proofs.RxProofsE Proofs.RxProofsF Proofs.RxProofsG.
+  Proofs.SendProofs Proofs.RxProofsA Proofs.RxProofsB Proofs.RxProofsC Proofs.RxProofsD Proofs.RxProofsE Proofs.RxProofsF Proofs.RxProofsG Proofs.RxProofsH.
 Import ListNotations.
 Local Open Scope Z_scope.
 
@@ -39,13 +39,11 @@ Theorem C02_rx_table_kept : rx_table_kept_stmt.  Proof. exact rx_table_kept. Qed
 Print Assumptions C02_rx_table_kept.
 Theorem C02_poll_is_loop : poll_is_loop_stmt.  Proof. exact poll_is_loop. Qed.
 Print Assumptions C02_poll_is_loop.
-(* completeness by counting (PGN, source, destination) keys against slots is false of the code: open finding 'complete-stale' *)
-Theorem C02_rx_complete_refuted : rx_complete_refuted_stmt.  Proof. exact rx_complete_refuted. Qed.
-Print Assumptions C02_rx_complete_refuted.
-Theorem C02_rx_complete_false : rx_complete_false_stmt.  Proof. exact rx_complete_false. Qed.
-Print Assumptions C02_rx_complete_false.
 Theorem C02_rx_complete_partial : rx_complete_partial_stmt.  Proof. exact rx_complete_partial. Qed.
 Print Assumptions C02_rx_complete_partial.
+(* completeness by counting (PGN, source, destination) keys against slots (true since FindFreeCANMsgIndex prefers the busy slot of the key) *)
+Theorem C02_rx_complete : rx_complete_stmt.  Proof. exact rx_complete. Qed.
+Print Assumptions C02_rx_complete.
 (* runs of the arrival stream are sent messages, provided the 3-bit sequence id cannot alias *)
 Theorem C02_runs_are_sent : runs_are_sent_stmt.  Proof. exact runs_are_sent. Qed.
 Print Assumptions C02_runs_are_sent.
@@ -83,6 +81,7 @@ Proof.
   apply (C02_rx_complete_poll gf_none (with_rxq ex_node [ex_a0; ex_b0; ex_a1; ex_b1; ex_a2]) ex_a0 [ex_a1; ex_a2] [ex_b0; ex_a1; ex_b1; ex_a2] 20%nat).
   - intros r s; repeat split.
   - repeat split; vm_compute; reflexivity.
+  - unfold free_clear. cbn. repeat (constructor; [intros _; reflexivity|]). constructor.
   - reflexivity.
   - cbn [interleaved]. right. split; [intros (_ & A & _); vm_compute in A; discriminate|]. left. eexists. split; [reflexivity|].
     cbn [interleaved]. right. split; [intros (_ & A & _); vm_compute in A; discriminate|]. left. eexists. split; [reflexivity|]. reflexivity.
@@ -130,3 +129,44 @@ Proof.
   - cbn. lia.
 Qed.
 Print Assumptions C02_sent_applies.
+
+(* regression witness of the repaired finding 'complete-stale' (two senders over two slots, sender 11 loses the tail of a message and sends
+   the next one after sender 10's slot was freed): all three complete messages are handed over, in particular sender 10's second one *)
+Example C02_stale_slot_repaired :
+  fp_dlv (snd (rx_loop gf_none 20%nat wit_node)) =
+    [ {| m_pri := 3; m_pgn := 129029; m_src := 10; m_dst := 255; m_data := [0; 1; 2; 3; 4; 5; 6; 7; 8; 9]; m_tp := false |};
+      {| m_pri := 3; m_pgn := 129540; m_src := 11; m_dst := 255; m_data := [40; 41; 42; 43; 44; 45; 46; 47; 48; 49]; m_tp := false |};
+      {| m_pri := 3; m_pgn := 129029; m_src := 10; m_dst := 255; m_data := [60; 61; 62; 63; 64; 65; 66; 67; 68; 69]; m_tp := false |} ].
+Proof. vm_compute. reflexivity. Qed.
+Print Assumptions C02_stale_slot_repaired.
+
+(* the hypotheses of rx_complete are satisfiable: the same history, two keys against two slots *)
+Example C02_rx_complete_applies :
+  In (run_msg (mkf wit_x [32; 10; 60; 61; 62; 63; 64; 65]) [mkf wit_x [33; 66; 67; 68; 69; 255; 255; 255]]) (fp_dlv (snd (rx_loop gf_none 20%nat wit_node))).
+Proof.
+  apply (C02_rx_complete gf_none wit_node
+    [mkf wit_x [0; 10; 0; 1; 2; 3; 4; 5]; mkf wit_k [0; 10; 20; 21; 22; 23; 24; 25]; mkf wit_x [1; 6; 7; 8; 9; 255; 255; 255]; mkf wit_k [32; 10; 40; 41; 42; 43; 44; 45]]
+    (mkf wit_x [32; 10; 60; 61; 62; 63; 64; 65])
+    [mkf wit_k [33; 46; 47; 48; 49; 255; 255; 255]; mkf wit_x [33; 66; 67; 68; 69; 255; 255; 255]]
+    [mkf wit_x [33; 66; 67; 68; 69; 255; 255; 255]]
+    [(129029, 10, 255); (129540, 11, 255)] 20%nat).
+  - intros r s; repeat split.
+  - split; [reflexivity|repeat constructor].
+  - reflexivity.
+  - vm_compute. discriminate.
+  - intros f Hin. change (r_q wit_node) with wit_q in Hin. unfold wit_q in Hin. repeat (destruct Hin as [<-|Hin]; [vm_compute; auto|]). destruct Hin.
+  - repeat split; vm_compute; reflexivity.
+  - cbn [interleaved]. right. split; [intros (_ & A & _); vm_compute in A; discriminate|]. left. exists []. split; reflexivity.
+  - cbn [seq_ok]. repeat split; vm_compute; congruence.
+  - vm_compute. reflexivity.
+  - intros cs' Hl E. cbn [length] in Hl. destruct cs' as [|x cs']; cbn [length] in Hl; [|lia]. vm_compute. reflexivity.
+  - change (r_q wit_node) with wit_q. cbn. lia.
+Qed.
+Print Assumptions C02_rx_complete_applies.
+
+(* the library's group function handlers (Model/GroupFnDefs.v, property C09) satisfy the contract gf_ok: HandleGroupFunction leaves the
+   reassembly table, the driver queue, the PGN configuration, the known-message switch and the clock alone and delivers nothing itself,
+   so the statements that assume gf_ok hold for the node as shipped (gf := gf_lib) *)
+From N2kV Require Model.GroupFnDefs Proofs.GroupFnContractsA.
+Theorem C02_gf_lib_ok : RxSpec.gf_ok GroupFnDefs.gf_lib.  Proof. exact GroupFnContractsA.gf_lib_rx_ok. Qed.
+Print Assumptions C02_gf_lib_ok.
